@@ -204,11 +204,13 @@ def nested_loop(n_limit: int, c0: int, body_len: int = 1, gate: str = "route", d
 
 def gen_loop(rng):
     """Random template instance."""
-    t = rng.choice(["counter", "counter", "counter", "acc", "signal", "signal", "nested", "entry"])
+    t = rng.choice(["counter", "counter", "counter", "acc", "signal", "signal", "nested", "entry", "twoacc"])
     n = rng.randint(0, 7)
     c0 = rng.randint(0, 3)
     if t == "counter":
         return counter_loop(n, c0, rng.randint(1, 3), rng.choice(["route", "ifelse"]), rng.random() < 0.4, rng.random() < 0.7)
+    if t == "twoacc":
+        return two_acc_loop(n, c0)
     if t == "acc":
         return accumulator_loop(n, c0, gate=rng.choice(["route", "ifelse"]))
     if t == "signal":
@@ -257,3 +259,35 @@ def once_signal_loop(n_limit: int, c0: int, name: str = "once"):
     counts["obs"] = 1
     ref = {"trace": None, "values": vals, "counts": counts, "singleton_steps": False, "steps": None}
     return {"spec": spec, "inputs": inputs, "ref": ref, "template": f"once-signal(N={n_limit},c0={c0})"}
+
+
+def two_acc_loop(n_limit: int, m0_len: int, name: str = "twoacc"):
+    """Two ungated accumulators writing the same value in one iteration, ordered by an
+    ordering signal: while len(m) < N { q = ask(m); m = add_q(m, q); r = reply(q); m = add_r(m, r) }.
+    The gate re-evaluates after each of the two writes; the mid-turn decision is
+    superseded before its target can act on it, so only body counts are prescribed."""
+    m0 = [("m", i) for i in range(m0_len)]
+    nodes = [
+        {"k": "fn", "name": "ask", "params": [{"n": "messages"}], "outs": ["query"], "beh": ["len", "messages"]},
+        {"k": "fn", "name": "add_q", "params": [{"n": "messages"}, {"n": "query"}], "outs": ["messages"], "emit": ["q_done"], "beh": ["append", "messages", "query"]},
+        {"k": "fn", "name": "reply", "params": [{"n": "query"}], "outs": ["response"], "beh": ["mark", "query", "r"]},
+        {"k": "fn", "name": "add_r", "params": [{"n": "messages"}, {"n": "response"}], "outs": ["messages"], "wait": ["q_done"], "beh": ["append", "messages", "response"]},
+        {"k": "route", "name": "cont", "params": [{"n": "messages"}], "targets": ["ask", "END"], "cond": ["lenlt", "messages", n_limit], "then": "ask", "else": "END"},
+    ]
+    spec = {"name": name, "nodes": nodes, "bind": {}}
+    inputs = {"messages": list(m0)}
+    trace = []
+    m = list(m0)
+    while len(m) < n_limit:
+        q = len(m)
+        trace.append(("ask", {"query": q}))
+        m = m + [q]
+        trace.append(("add_q", {"messages": m}))
+        r = ("r", q)
+        trace.append(("reply", {"response": r}))
+        m = m + [r]
+        trace.append(("add_r", {"messages": m}))
+    vals = _fold(inputs, trace)
+    vals.setdefault("messages", list(m0))
+    ref = {"trace": None, "values": vals, "counts": _counts(trace), "singleton_steps": False, "steps": None, "uncounted": ["cont"]}
+    return {"spec": spec, "inputs": inputs, "ref": ref, "template": "two-accumulators"}
